@@ -256,9 +256,14 @@ def _bootstrap_margin(ctx):
     ctx.ob("C01.R4.same-turnout", f"{f.qualname}|divisor is the reported pred_turnout", same, f.where(),
            "the divisor of results_margin (and pred_margin) is the vector reported as pred_turnout" if same
            else "results_margin is divided by something else than the reported pred_turnout")
-    comps = turnout_components(ctx, s, den, f)
-    want = {("U", "col:results_weights"), ("R", "baseline_weights*turnout_factor"), ("N", "self.weighted_z_test_pred")}
-    ok = comps is not None and set(comps) == want and len(comps) == 3
+    raw = am.matsum_components(den)
+    order_ok = all(c[2] for c in raw)
+    if not order_ok:
+        ctx.ob("C01.R4.order", f"{f.qualname}|indicator rows = concat(R, N, U)", False, f.where(),
+               "the indicator matrix is not built from concat([reporting, nonreporting, unexpected]) although it is sliced as R | N | U")
+    comps = [(c[0], c[1]) for c in raw]
+    want = {("U", "results_weights"), ("R", "baseline_weights*turnout_factor"), ("N", "self.weighted_z_test_pred")}
+    ok = order_ok and set(comps) == want and len(comps) == 3
     ctx.ob("C01.R4.turnout", f"{f.qualname}|turnout = S_U(results_weights) + S_R(w z) + S_N(w z_hat)", ok, f.where(),
            "predicted turnout sums counted two-party votes of unexpected units, w*z of reporting units and predicted w*z of nonreporting units"
            if ok else f"turnout components are {sorted(comps) if comps else comps}")
